@@ -68,11 +68,12 @@ def h06a(c, r=2, v=2, s=2):
             c.ob("order.fill<=remaining", w["fill"] <= w["rem"])
             if not w["elig_levels"]:
                 c.ob("order.no-eligible-level.no-fill", w["fill"] == 0)
-        if r == 1 or all((w["strategy"] is not orders[0]["strategy"]) for w in orders[1:]) and iso:
-            w = orders[0]
-            lone = c.smin(c.smax(w["E"] - w["piq"], 0), w["rem"])
-            c.ob("lone-order.fill=exactly", c.close(w["fill"], lone, HALF * max(len(w["elig_levels"]), 1)))
-            c.cover("lone")
+        for w in orders:
+            # alone among the resting orders of its strategy (of the instance when isolation is off): exactly the lone-order amount
+            if len([x for x in orders if (x["strategy"] is w["strategy"]) or not iso]) == 1:
+                lone = c.smin(c.smax(w["E"] - w["piq"], 0), w["rem"])
+                c.ob("lone-order.fill=exactly", c.close(w["fill"], lone, HALF * max(len(w["elig_levels"]), 1)))
+                c.cover("lone")
         # ---- per strategy (per instance when isolation is off): never more than the eligible volume of the update
         groups = {}
         for w in orders:
@@ -96,6 +97,16 @@ def h06a(c, r=2, v=2, s=2):
                         c.cover("priority")
         if c.is_true(cm.total([w["fill"] for w in orders]) > 0):
             c.cover("fill")
+        # ---- a further update whose traded ladder is unchanged carries no new volume: nothing is filled out of it
+        if True:
+            n1 = [len(w["order"].simulated.matched) for w in orders]
+            bk3 = cm.book([cm.runner(1, tv=[{"price": p, "size": x} for p, x in new.items()]), cm.runner(2)], version=7, pt_ms=cm.T0_MS + 2000)
+            with c.guard("unchanged-update"):
+                market(bk3)
+                mw(market)
+            for w, n in zip(orders, n1):
+                c.ob("unchanged-ladder.no-fill", len(w["order"].simulated.matched) == n)
+            c.cover("unchanged-ladder")
 
 
 def h06b(c, L=2):
@@ -144,7 +155,7 @@ def h06c(c, U=3):
 
 HARNESSES = [
     Harness("H06c", h06c, quick=dict(U=3), thorough=dict(U=4), pattern="P3 with symbolic time", requires=["run", "executed"]),
-    Harness("H06a", h06a, quick=dict(r=2, v=2, s=2), thorough=dict(r=3, v=2, s=2), pattern="P2 inductive step", requires=["lone", "group", "priority", "fill"],
+    Harness("H06a", h06a, quick=dict(r=2, v=2, s=2), thorough=dict(r=3, v=2, s=2), pattern="P2 inductive step", requires=["lone", "group", "priority", "fill", "unchanged-ladder"],
             wall_s=(300, 3000), max_paths=(300000, 5000000),
             outside=["simulation_available_prices=True (documented double-counting mode, excluded by the property)", "more than r resting orders / v traded price levels per update",
                      "order and traded prices outside {1.5, 2.0, 2.5, 3.0} (sizes, queue sizes and volumes: every 2dp value, symbolic)"]),
